@@ -1,10 +1,20 @@
-HOOK_COMMITS = ["d747c05"]
+HOOK_COMMITS = ["d747c05", "verif hook: export piece splitting / substitution / hash pre-image helpers of the linker under build tag verif"]
 
 TEXT = {
     "C07": {
         "level": "Lean theorems for all integers/inputs on the model of internal/sourcemap (VLQ codec round-trip over the alphabet extracted from the source); the model is tied to the code by the regenerated alphabet fact and by a correspondence run; mapping truth end-to-end is searched, not proved.",
         "note": "Trusted: Lean kernel, extractor, correspondence harness generator quality, Go int = 64 bit. Where the printer adds mappings is not modelled (search only).",
         "technique": "Lean 4 proof on hand-written model + regenerated facts + differential correspondence; Node/Lean-decoded end-to-end search",
+    },
+    "C18": {
+        "level": "Lean theorems (all inputs) that the length-prefixed hash pre-image encoding is injective and that piece splitting partitions the output; model tied to the linker by a correspondence run through verif-tagged exports. Whole-build oracles (same name => same bytes over single-point edits, reference integrity, no placeholder) are a search, not a proof; name_determines_bytes is a recorded known finding.",
+        "note": "Trusted: Lean kernel, correspondence harness, xxhash collision freedom. Modelled not verified: Go code of the linker; only the pre-image encoding and piece splitting are modelled.",
+        "technique": "Lean 4 proof on hand-written model + differential correspondence; build-pair search",
+    },
+    "C19": {
+        "level": "Lean theorem for all piece lists and path functions that the byte count reported in the metafile equals the length of the substituted output, tied to the linker by correspondence; the rest of the metafile contract (exact output set, lengths, imports, exports, per-input attribution re-derived from the emitted text) is checked by search over generated builds.",
+        "note": "Trusted: Lean kernel, correspondence harness, the independent re-derivation rule for bytesInOutput (unminified ESM only).",
+        "technique": "Lean 4 proof on hand-written model + differential correspondence; metafile-vs-output search",
     },
 }
 
